@@ -61,7 +61,9 @@ struct TsanWindow {
 #else
 struct TsanWindow { };
 #endif
-#define SUT_TRY try { TsanWindow tsan_window_; (void)tsan_window_;
+// triage aid: SUT_TRACE=1 in the environment prints every call that enters SoPlex through this layer (replays only; never read by a check)
+inline bool sut_trace_on() { static const bool on = getenv("SUT_TRACE") != nullptr; return on; }
+#define SUT_TRY try { if (sut_trace_on()) fprintf(stderr, "[api] %s\n", __func__); TsanWindow tsan_window_; (void)tsan_window_;
 #define SUT_END } catch (...) { rethrow_as_exc(); }
 
 inline DSVector toDS(const SVec& v) { DSVector d((int)v.idx.size() + 1); for (size_t k = 0; k < v.idx.size(); k++) d.add(v.idx[k], v.val[k]); return d; }
